@@ -1328,6 +1328,18 @@ package rueidis
 //@ func wire.Close
 //@ func wire.ResetTimer
 //@ func wire.StopTimer
+// Acquire (sequential reading of each critical section; Cond.Wait forgets the pool's state): a new connection is made only
+// when the pool is up, the caller's context is live, nothing is idle and the pool is below its capacity; an idle
+// connection handed out leaves the idle list; a connection that turns out unusable is closed and taken off the account;
+// a dead context or a closed pool gets a dead connection and changes nothing
+//@ func pool.Acquire
+//@   modifies *
+//@   safety C24 index,slice
+//@   assert [C24 a-caller-waits-only-while-the-pool-is-exhausted] at Wait: len(p.list) == 0 && p.size == p.cap && !p.down
+//@   assert [C24 the-slot-is-reserved-only-when-the-pool-is-up-idle-free-and-below-capacity] at Unlock#3: !p.down && len(p.list) == 0 && returned(Err) == nil && p.size != p.cap + 1
+//@   assert [C24 an-idle-connection-handed-out-has-left-the-idle-list] at StopTimer#2: arg0 == v && i >= 0 && len(p.list) == i
+//@   assert [C24 an-unusable-connection-is-closed-and-taken-off-the-account] at Close#1: arg0 == v
+//@   assert [C24 an-unusable-idle-connection-is-closed-and-taken-off-the-account] at Close#2: arg0 == v
 //@ func pool.removeIdleConns
 //@   requires 0 <= p.minSize && len(p.list) <= p.size
 //@   modifies *
